@@ -417,13 +417,13 @@ func (r *c18Run) walk(t *testing.T, g c18GraphPlan, gr *vGraph, ms []c18Model, w
 					what = fmt.Sprintf("node A let a packet of flow %s through (%s) although no rule allows it and its flow had been idle for %d units, longer than the %s timeout (%d units)",
 						tuple, c18Dir(inc), idle, proto, g.timeout(f))
 					if quietReader {
-						key += ":first-packet-of-reader-after-quiet-period"
+						key += ":after-quiet-period"
 						what += fmt.Sprintf("; it was the first packet that reader routine handled after a quiet period (it had handled nothing since t=%d, now t=%d)", readerLast[q], now)
 					} else {
-						key += ":reader-active-meanwhile"
+						key += ":reader-busy"
 					}
 					if cachedSince[f][q] {
-						key += ":flow-was-in-routine-cache"
+						key += ":was-cached"
 						what += "; when the flow's packet last passed there it was admitted from, or put into, that routine's conntrack cache"
 					}
 				case ever[f]:
